@@ -81,13 +81,17 @@ CHECKS = {
             "once in increasing order, VARR and DLIST preserve contents and order with the list invariants; HTAB part: see Props/C19/Htab.lean. Correspondence: real headers under ASan+UBSan and NDEBUG, "
             "exhaustive short sequences over small universes plus long random histories, colliding hash functions, free-function counts.",
             TB, "4 C19"),
-    "C01": ("proof", "Lean 4 theorems about the optimizer's tables and rewrites (regenerated from mir-gen.c/mir.c) + differential execution of random well-defined programs across interpreter and -O0..-O3",
+    "C01": ("proof", "Lean 4 theorems about the optimizer's tables, rewrites and decision predicates (regenerated from mir-gen.c/mir.c/mir.h) + differential execution of random well-defined programs across interpreter and -O0..-O3",
             "PROVED for all operand values: GVN constant folding = interpreter macro = documented result for every integer opcode; the folder never evaluates a "
             "trapping division; MIR_reverse_branch_code, get_combined_br_code and commutative_insn_code are sound for every integer row; mul/udiv/div by 2^k = "
-            "the emitted shift sequences under exactly the guards the code checks (64- and 32-bit); store->load forwarding is sound only for 64-bit memory types. "
-            "The rest of the pipeline (SSA, LICM, RA, combine, encoder) is decided by running random well-defined programs (any CFG incl. irreducible loops and "
-            "switch, memory operands, alloca, overflow insns, calls) under MIR_interp, the interp C interface and MIR_gen -O0..-O3 and comparing results, buffer and call log.",
-            TB + " Partial: the unmodelled passes are only exercised; laddr/jmpi programs are not generated yet.", "4 C01"),
+            "the emitted shift sequences under exactly the guards the code checks (64- and 32-bit); store->load forwarding is sound only for 64-bit memory types; "
+            "extension-chain rewrites of copy_prop for every width/sign pair; the overlap test of alloca_mem_intersect_p and may_alias_p (translated expressions) "
+            "meet their specifications; out-of-SSA: the copy form implements the parallel phi assignment for every phi list and the rename shortcut is sound exactly "
+            "under the condition the code checks; LICM hoists only pure opcodes and neither dead-code eliminator deletes an effect (opcode lists translated from the source). "
+            "The rest of the pipeline (SSA construction, RA, combine, encoder) is decided by running random well-defined programs (any CFG incl. irreducible loops, "
+            "switch and jmpi, inner loops with swapped/rotated carried registers and guarded invariant divisions, memory operands, overlapping accesses, alloca, overflow insns, calls) "
+            "and a compare-and-branch operand-shape sweep under MIR_interp, the interp C interface and MIR_gen -O0..-O3, comparing results, buffer and call log.",
+            TB + " Partial: the unmodelled passes are only exercised.", "4 C01"),
     "C06": ("proof", "Lean 4 simulation proofs (callee placement, va_start/va_arg walk, frame arithmetic) over tables extracted from mir-gen-x86_64.c + assembly trampoline correspondence",
             "PROVED for all signatures: incoming-argument placement of target_machinize and of the interpreter shim = psABI (partial where the code deviates, with counterexamples), "
             "va_start/va_arg walk, frame alignment, disjoint save slots, alloca alignment, callee-saved set on the regenerated table. Correspondence: gcc-compiled callers enter MIR "
